@@ -462,6 +462,9 @@ func tableOf(v ssa.Value) *constTable {
 	return constTables[g]
 }
 
+// IsConstTable: g is a package-level table of the module that is filled once by its initialiser and only read afterwards.
+func IsConstTable(g *ssa.Global) bool { return constTables[g] != nil }
+
 // ConstTables lists the tables (for evidence).
 func ConstTables() []string {
 	out := []string{}
